@@ -611,7 +611,11 @@ def rule_is_closing(ck):
         def visit_Call(self, node):
             if q.is_call(node, "self.stream.closed"):
                 return ast.Name(id="__stream_closed", ctx=ast.Load())
-            return self.generic_visit(node)
+            node = self.generic_visit(node)
+            if isinstance(node.func, ast.Name) and node.func.id in ("any", "all") and len(node.args) == 1 and isinstance(node.args[0], (ast.Tuple, ast.List)) and node.args[0].elts and not node.keywords:
+                # any((a, b, c)) is bool(a or b or c)
+                return ast.Call(func=ast.Name(id="bool", ctx=ast.Load()), args=[ast.BoolOp(op=ast.Or() if node.func.id == "any" else ast.And(), values=list(node.args[0].elts))], keywords=[])
+            return node
 
     e = T().visit(copy.deepcopy(rets[0].value))
     bad = []
